@@ -269,6 +269,30 @@ def read_grammar(it):
     so2 = only(U.named(arith, "shift_op", NO_GROUP), "arith_immediate: shift_op")
     if not so2.same(so):
         raise TranslateError("arith_immediate uses a different shift_op than register")
+    # ... + shift_op("shift_op") [+ WordEnd(chars)] + Optional(immediate)("shift"): is the operator a complete word?
+    # (the element right behind the operator in its sequence; the same answer and the same characters as the
+    # word end of condition codes at both places, because the model has one `wordEnd`)
+    ends = []
+    for where, root, node in (("register", rseq.kids[1], so), ("arith_immediate", arith, so2)):
+        seq = only([x for x in U.walk(root, NO_GROUP if root is not arith else None) if x.kind == "And" and any(k is node for k in x.kids)],
+                   "%s: the sequence that contains shift_op" % where)
+        i = [k is node for k in seq.kids].index(True)
+        after = seq.kids[i + 1:]
+        if [k.name for k in after if k.name is not None] != ["shift"] or U.of_kind(seq.kids[i - 1] if i else seq, "Literal") == [] \
+                or U.literals(seq.kids[i - 1]) != [","]:
+            raise TranslateError("%s: expected `\",\" + shift_op [+ WordEnd] + Optional(immediate)(\"shift\")`, got %s" % (where, U.show(seq)))
+        if len(after) == 2 and after[0].kind == "WordEnd" and after[0].name is None:
+            if _word_extra(after[0], "alphanums", "%s: word end of shift_op" % where) != g["we_extra"]:
+                raise TranslateError("%s: the word end of shift_op has other characters than the word end of condition codes "
+                                     "(the model has one WordEnd)" % where)
+            ends.append(True)
+        elif len(after) == 1:
+            ends.append(False)
+        else:
+            raise TranslateError("%s: unexpected elements behind shift_op: %s" % (where, U.show(seq)))
+    if ends[0] != ends[1]:
+        raise TranslateError("shift_op ends at a word boundary in only one of register / arith_immediate")
+    g["shift_word_end"] = ends[0]
     bi = only(U.named(arith, "base_immediate", NO_GROUP), "arith_immediate: base_immediate")
     if not bi.same(imm):
         raise TranslateError("arith_immediate: base_immediate is not the immediate")
@@ -552,7 +576,7 @@ def read_memory(pm, interp):
     return r
 
 
-@generator("A64Grammar", [SRC, BASE])
+@generator("A64Grammar", [SRC, BASE, "../verif-self:tools/gen/a64grammar.py", "../verif-self:tools/gen/astutil_G4.py"])
 def gen_a64grammar():
     tree = parse(SRC)
     tb = parse(BASE)
@@ -652,7 +676,10 @@ def gen_a64grammar():
     d("identFirstExtra", "List Nat", txt(g["first_extra"]), "identifier first = alphas + this")
     d("identRestExtra", "List Nat", txt(g["rest_extra"]), "identifier rest = alphanums + this")
     d("relocExtra", "List Nat", txt(g["reloc_extra"]), "relocation = alphanums + this")
-    d("wordEndExtra", "List Nat", txt(g["we_extra"]), "WordEnd(alphanums + this) after a condition code / prefetch operation")
+    d("wordEndExtra", "List Nat", txt(g["we_extra"]),
+      "WordEnd(alphanums + this) after a condition code / prefetch operation" + (" / shift operator" if g["shift_word_end"] else ""))
+    d("shiftWordEnd", "Bool", "true" if g["shift_word_end"] else "false",
+      "`shift_op + WordEnd(alphanums + wordEndExtra)` in register and arith_immediate: the shift operator is a complete word")
     d("hexPrefix", "List Nat", txt(g["hex_prefix"]), "hex_number prefix literal")
     d("operandSlots", "Nat", str(g["n_slots"]), "operand1 .. operandN of instruction_parser")
     d("lineBase", "Nat", str(line_base), "parse_file: line number = index + this + start_line")
